@@ -39,7 +39,7 @@ def run_row(row, tmpdir):
         t = txt(row["t"])
         exp = [txt(l) for l in row["out"]]
         ref = t.splitlines() + ([""] if t and t[-1] in "\n\r\x0b\x0c\x85  " else [])
-        if ref != exp:
+        if ref != exp and not any(c in t for c in "\x1c\x1d\x1e"):       # (str.splitlines also breaks at FS / GS / RS)
             raise core.MachineryError("TLA+ IterSplitlines disagrees with str.splitlines on %r" % (t,))
         try:
             got = list(strutils.iter_splitlines(t))
@@ -75,6 +75,23 @@ def run_row(row, tmpdir):
         chk("text-file", lambda: jsonutils.reverse_iter_lines(f, blocksize=bs), True)
     except UnicodeDecodeError:
         pass
+    # a text-mode file opened with the BOM-skipping codec: the mark is dropped at the start of the FILE only (as by the
+    # file's own read()); a line that begins with U+FEFF further down keeps it
+    if bs in (1, 2, 3):
+        try:
+            want_sig = [[l.decode("utf-8") for l in a] for a in alts]
+            for a_ in want_sig:
+                if a_ and a_[-1][:1] == "\ufeff":
+                    a_[-1] = a_[-1][1:]
+            fs_ = open(path, encoding="utf-8-sig", newline="")
+            try:
+                got_ = list(jsonutils.reverse_iter_lines(fs_, blocksize=bs))
+                if got_ not in want_sig:
+                    bad.append(("text-file/utf-8-sig", [list(x.encode("utf-8")) for x in got_]))
+            except Exception as ex:
+                bad.append(("text-file/utf-8-sig", "raised:" + core.exc_name(ex)))
+        except UnicodeDecodeError:
+            pass
     # other encodings: a text-mode file in a single-byte encoding, and the encoding= argument on binary input
     if bs in (1, 2):
         for enc_ in ("latin-1", "cp1252"):
@@ -130,16 +147,32 @@ def jsonl_cases(rng, n, maxlines):
     try:
         for _ in range(n):
             big = _ % 10 == 9          # every tenth file is several blocks long for the shipped block size
-            kinds = [rng.choice(["obj", "obj", "blank", "corrupt", "spaces", "badutf8"]) for _ in range(rng.randint(300, 700) if big else rng.randint(0, maxlines))]
+            kinds = [rng.choice(["obj", "obj", "blank", "corrupt", "spaces", "badutf8", "falsy", "padded", "tabblank", "toodeep"])
+                     for _ in range(rng.randint(300, 700) if big else rng.randint(0, maxlines))]
             ignore = rng.random() < 0.6
             if not ignore:
-                kinds = [k for k in kinds if k not in ("corrupt", "badutf8")]
+                kinds = [k for k in kinds if k not in ("corrupt", "badutf8", "toodeep")]
+            if big:
+                kinds = [k for k in kinds if k != "toodeep"]
             lines, objs = [], []
             for i, k in enumerate(kinds):
                 if k == "obj":
                     o = {"id": i, "txt": rng.choice(["x", "hé", "a b", ""])}
                     lines.append(json.dumps(o, ensure_ascii=rng.random() < 0.5))
                     objs.append(o)
+                elif k == "falsy":
+                    # payloads that are falsy in Python are records like any other
+                    o = rng.choice([{}, [], 0, None, "", False, 0.0])
+                    lines.append(json.dumps(o))
+                    objs.append(o)
+                elif k == "padded":
+                    o = {"id": i, "pad": True}
+                    lines.append(rng.choice(["\t", "  ", " \t "]) + json.dumps(o) + rng.choice(["", " ", "\t\t"]))
+                    objs.append(o)
+                elif k == "tabblank":
+                    lines.append(rng.choice(["\t", " \t ", "\x0c"]))
+                elif k == "toodeep":
+                    lines.append("[" * 6000)          # not a ValueError: the parser runs out of stack (skipped with ignore_errors)
                 elif k == "blank":
                     lines.append("")
                 elif k == "spaces":
@@ -150,13 +183,18 @@ def jsonl_cases(rng, n, maxlines):
                 else:
                     lines.append('{"broken": ')
             blines = [l if isinstance(l, bytes) else l.encode("utf-8") for l in lines]
-            sep_ = rng.choice([b"\n", b"\n", b"\r\n"])
-            data = sep_.join(blines) + (sep_ if lines and rng.random() < 0.7 else b"")
+            sep_ = rng.choice([b"\n", b"\n", b"\r\n", None])
+            if sep_ is None:            # both separators in one file
+                data = b"".join(b_ + rng.choice([b"\n", b"\r\n"]) for b_ in blines[:-1]) + (blines[-1] if blines else b"")
+                sep_ = b"\n"
+            else:
+                data = sep_.join(blines)
+            data += (sep_ if lines and rng.random() < 0.7 else b"")
             text = data.decode("utf-8", "backslashreplace")
             path = os.path.join(d, "f.jsonl")
             with open(path, "wb") as f:
                 f.write(data)
-            modes = ("rb",) if "badutf8" in kinds else ("r", "rb")
+            modes = ("rb", "bytesio") if "badutf8" in kinds else ("r", "rb", "bytesio")
             try:
                 # the same text in a single-byte codec, read in text mode with that codec
                 with open(os.path.join(d, "f.latin1"), "wb") as f:
@@ -168,6 +206,17 @@ def jsonl_cases(rng, n, maxlines):
                 runs += 1
                 try:
                     kw = {} if mode == "rb" else {"encoding": "utf-8"}
+                    if mode == "bytesio":
+                        fwd = list(jsonutils.JSONLIterator(io.BytesIO(data), ignore_errors=ignore))
+                        it = jsonutils.JSONLIterator(io.BytesIO(data), ignore_errors=ignore, reverse=True)
+                        if bsz:
+                            it._blocksize = bsz
+                            it._line_iter = jsonutils.reverse_iter_lines(it._file_obj, blocksize=bsz, preseek=False)
+                        rev = list(it)
+                        if fwd != objs or rev != objs[::-1]:
+                            bad.append(({"kinds": kinds, "mode": mode, "blocksize": bsz, "ignore_errors": ignore, "text": text},
+                                        {"forward": fwd, "reverse": rev, "expected": objs}))
+                        continue
                     if mode == "r-latin1":
                         mode, kw, path = "r", {"encoding": "latin-1"}, os.path.join(d, "f.latin1")
                     else:
